@@ -66,6 +66,11 @@ func (k msgServer) SubmitValue(ctx context.Context, msg *types.MsgSubmitValue) (
 	}
 
 	reportingPower := reporterStake.Quo(layertypes.PowerReduction).Uint64()
+	// the minimum stake is a governance parameter and may lie below one whole token: a stake that is worth no power at
+	// all cannot carry a report (rewards are divided by the power of the reporters of an aggregate)
+	if reportingPower == 0 {
+		return nil, errorsmod.Wrapf(types.ErrNotEnoughStake, "reporter has %s, which is less than one unit of reporting power", reporterStake)
+	}
 
 	query, err := k.keeper.CurrentQuery(ctx, queryId)
 	if err != nil {
